@@ -5,28 +5,37 @@
 
   The two `repr` functions are parameters: `ρ` for values and concrete paths, `κ` for a single
   condition.  (`Valida.Repr` provides the instances the correspondence check uses.)
+  Every piece of literal text comes from `ValidaGen.ReportFmt`, regenerated from the three functions
+  on every run (their shape is checked against the recorded skeleton by the translator).
 -/
 import Valida.Rule
+import ValidaGen.ReportFmt
 namespace Valida
 namespace Report
+open ValidaGen.ReportFmt
 
+/-- `err_msg.format(cnd_name)` -/
 def reasonText (r : FD.Reason) (name : String) : String :=
   match r with
-  | .preErr => "Condition pre-processor raised an exception: `" ++ name ++ "`."
-  | .cErr => "Condition callable raised an exception: `" ++ name ++ "`."
-  | .cFalse => "Condition callable returned False: `" ++ name ++ "`."
+  | .preErr => msgPreErr.1 ++ name ++ msgPreErr.2
+  | .cErr => msgCErr.1 ++ name ++ msgCErr.2
+  | .cFalse => msgCFalse.1 ++ name ++ msgCFalse.2
+
+/-- `if cnd_name in ("and", "or"): continue` -/
+def skipped (name : String) : Bool := name == skipRowA || name == skipRowB
 
 /-- `get_failure_by_index(idx)`: the truth-table rows in order (a leaf's row is named by its
     `repr`, a binary node's by its symbol and placed after its children; `and` / `or` rows are
     skipped), each giving the text of the first of the three tables that holds for the item. -/
 def namedReasonsAt (κ : Leaf Arg → String) (idx : Nat) : Cond Arg → FD → List String
   | .leaf l, .leaf _ _ flags =>
+      if skipped (κ l) then [] else
       match flags[idx]? with
       | some f => (FD.pick f.preErr f.cErr f.cFalse).map (fun r => reasonText r (κ l))
       | none => []
   | .bin _ a b, .bin op fa fb =>
       namedReasonsAt κ idx a fa ++ namedReasonsAt κ idx b fb ++
-        (if op == .xor then
+        (if !skipped op.symbol then
           (FD.pick ((FD.bin op fa fb).preErr.getD idx false) ((FD.bin op fa fb).cErr.getD idx false)
                    ((FD.bin op fa fb).cFalse.getD idx false)).map (fun r => reasonText r op.symbol)
          else [])
@@ -46,35 +55,36 @@ def reasonTextsOf (κ : Leaf Arg → String) (r : RuleM) (t : RuleTestR) : Excep
 
 /-- one failure item of `RuleTest.get_failures_string` -/
 def failureText (ρ : PyVal → String) (f : Failure) (reasons : List String) : String :=
-  "Path: " ++ ρ f.path ++ "\nValue: " ++ ρ f.value ++ "\nReasons:\n" ++
-    String.join (reasons.map (fun r => " " ++ r ++ "\n"))
+  failPathPrefix ++ ρ f.path ++ failValuePrefix ++ ρ f.value ++ failReasonsHeader ++
+    String.join (reasons.map (fun r => reasonPrefix ++ r ++ reasonSuffix))
 
 /-- `RuleTest.get_failures_string()` -/
 def ruleReport (ρ : PyVal → String) (t : RuleTestR) (texts : List (List String)) : String :=
-  (if t.failures.isEmpty then "Rule test is valid.\n" else "") ++
+  ruleOutInit ++ (if t.failures.isEmpty then ruleValidMsg else "") ++
     String.join (List.zipWith (failureText ρ) t.failures texts)
 
-def dashes (n : Nat) : String := String.ofList (List.replicate n '-')
+/-- `"-" * n` -/
+def dashes (n : Nat) : String := String.join (List.replicate n underlineChar)
 
 /-- the section of one rule test in `ValidatedData.get_failures_string()` (`idx` counts from 1) -/
 def section_ (ρ : PyVal → String) (idx : Nat) (t : RuleTestR) (texts : List (List String)) : String :=
   if t.isValid then "" else
-    let msg := "Rule #" ++ toString idx
-    msg ++ "\n" ++ dashes msg.length ++ "\n" ++ ruleReport ρ t texts ++ "\n"
+    let msg := sectionPrefix ++ toString idx
+    msg ++ sectionTitleEnd ++ dashes msg.length ++ underlineEnd ++ ruleReport ρ t texts ++ sectionEnd
 
 def sections (ρ : PyVal → String) : Nat → List RuleTestR → List (List (List String)) → List String
   | idx, t :: ts, x :: xs => section_ ρ idx t x :: sections ρ (idx + 1) ts xs
   | _, _, _ => []
 
 def testedMsg (v : Validated) (nRules : Nat) : String :=
-  toString v.numRulesTested ++ "/" ++ toString nRules ++ " rules were tested."
+  toString v.numRulesTested ++ testedSep ++ toString nRules ++ testedSuffix
 
 /-- `ValidatedData.get_failures_string()` given the reason texts of every rule test -/
 def reportWith (ρ : PyVal → String) (v : Validated) (nRules : Nat) (texts : List (List (List String))) : String :=
-  if v.isValid then "Data is valid. " ++ testedMsg v nRules ++ "\n"
+  if v.isValid then repOutInit ++ validPrefix ++ testedMsg v nRules ++ validSuffix
   else
-    toString v.numFailures ++ " rule" ++ (if v.numFailures > 1 then "s" else "") ++
-      " failed validation. " ++ testedMsg v nRules ++ "\n\n" ++
+    repOutInit ++ toString v.numFailures ++ headerRule ++ (if v.numFailures > 1 then headerPlural else headerSingular) ++
+      headerFailed ++ testedMsg v nRules ++ headerSuffix ++
       String.join (sections ρ 1 v.tests texts)
 
 def allTexts (κ : Leaf Arg → String) : List RuleM → List RuleTestR → Except Exc (List (List (List String)))
